@@ -10,7 +10,9 @@ import (
 // Validators builds the validator-rule family: every rule the converters understand x type kinds x sites.
 func Validators(tier string) Family {
 	rules := []string{"email", "uuid", "ip", "ipv4", "ipv6", "hostname", "date", "datetime", "gt=1", "gte=1", "lt=9", "lte=9", "min=1", "max=9", "len=3",
-		"pattern=^a+$", "minItems=1", "maxItems=3", "uniqueItems=true", "enum=a|b", "oneof=a b", "oneof=1 2", "required", "gt=0,lt=10", "min=1,max=5,required"}
+		"pattern=^a+$", "minItems=1", "maxItems=3", "uniqueItems=true", "enum=a|b", "oneof=a b", "oneof=1 2", "required", "gt=0,lt=10", "min=1,max=5,required",
+		// bounds that are not small positive integers: fractions, negatives, zero, large values
+		"max=9.5", "min=0.5", "gt=-1.5", "gte=-3", "lt=0", "lte=2.25", "min=-2,max=2.5", "max=0", "min=1000000", "len=0", "maxItems=0", "eq=5", "ne=3"}
 	types := []struct{ name, goType, decl string }{
 		{"string", "string", ""}, {"int", "int", ""}, {"float64", "float64", ""}, {"bool", "bool", ""}, {"[]string", "[]string", ""},
 		{"enum-ref", "VE§", "type VE§ string\n\nconst (\n\tVE§A VE§ = \"a\"\n\tVE§B VE§ = \"b\"\n)\n"},
@@ -55,8 +57,14 @@ func Validators(tier string) Family {
 				if decl != "" {
 					u.Decls[id] = decl
 				}
-				cases = append(cases, scen.Case{ID: id, Unit: u, Features: map[string]string{"family": "validators", "rule": strings.SplitN(r, "=", 2)[0], "rule-text": r, "type": t.name, "site": site},
-					Desc: map[string]any{"controller": ctl, "decls": decl}})
+				feat := map[string]string{"family": "validators", "rule": strings.SplitN(r, "=", 2)[0], "rule-text": r, "type": t.name, "site": site}
+				switch r {
+				case "max=0", "len=0", "maxItems=0":
+					feat["bound-shape"] = "zero-upper-bound"
+				case "min=-2,max=2.5":
+					feat["bound-shape"] = "negative-lower-bound"
+				}
+				cases = append(cases, scen.Case{ID: id, Unit: u, Features: feat, Desc: map[string]any{"controller": ctl, "decls": decl}})
 			}
 		}
 	}
